@@ -329,7 +329,7 @@ pub proof fn lemma_lits()
 
 // one obligation per clause, so that each is reported (and listed) separately
 pub proof fn chk_exec_only_0_1_2_open(k: Kernel)
-    requires forall|fd: int| (#[trigger] k.fds.contains_key(fd) && !k.cloexec.contains(fd)) <==> (fd == 0 || fd == 1 || fd == 2),   //@L C08.exec.only_0_1_2_open
+    requires forall|fd: int| (#[trigger] k.fds.contains_key(fd) && !k.cloexec.contains(fd)) <==> (fd == 0 || fd == 1 || fd == 2),   //@L C02+C08.exec.only_0_1_2_open
 { }
 pub proof fn chk_stdin(k: Kernel, cmd: Command, i: int, w: Wiring)
     requires k.fds.contains_key(0) && k.fds[0] == want_stdin(cmd, i, w.pobj, w.hs),   //@L C02+C04.exec.stdin_is_prev_stage_or_redirect
@@ -517,11 +517,11 @@ run_single_program = Fn(C, 'run_single_program', ret='r', pre_rewrites=RSP_RW, f
     ],
     loops={
         'hdr:idx_cmd + 1..pipes_count': Loop(invariant=[
-            ('C08.inv.rsp.child_ctx1', CTX),
-            ('C08.inv.rsp.right_closed', 'k.cloexec =~= Set::<int>::empty() && k.fds == close_range(f1, pipes@, idx_cmd + 1, __I as int) && __LO == idx_cmd + 1 && __HI == pipes_count'),
+            ('C02+C08.inv.rsp.child_ctx1', CTX),
+            ('C02+C08.inv.rsp.right_closed', 'k.cloexec =~= Set::<int>::empty() && k.fds == close_range(f1, pipes@, idx_cmd + 1, __I as int) && __LO == idx_cmd + 1 && __HI == pipes_count'),
         ]),
         'hdr:&cmd.redirects_to': Loop(invariant=[
-            ('C08.inv.rsp.child_ctx2', CTX),
+            ('C02+C08.inv.rsp.child_ctx2', CTX),
             ('C08.inv.rsp.redir_dom_std', 'k.fds.contains_key(0) && k.fds.contains_key(1) && k.fds.contains_key(2) && !k.cloexec.contains(0) && !k.cloexec.contains(1) && !k.cloexec.contains(2)'),
             ('C08.inv.rsp.redir_dom_only',
              'forall|fd: int| (#[trigger] k.fds.contains_key(fd) && !k.cloexec.contains(fd)) ==> (fd == 0 || fd == 1 || fd == 2 '
@@ -579,7 +579,7 @@ run_pipeline = Fn(C, 'run_pipeline', ret='r',
     ],
     loops={
         'hdr:for _ in 0..length - 1': Loop(invariant=[
-            ('C08.inv.pipeline.created', '!k.child && k.pgrp == old(k).pgrp && k.tty_pgrp == old(k).tty_pgrp && k.self_pid == old(k).self_pid && k.cloexec =~= Set::<int>::empty() && length == cl.commands@.len() && length > 0 && __HI == length - 1 && pipes@.len() <= __I && (!errored_pipes ==> pipes@.len() == __I) '
+            ('C02+C08.inv.pipeline.created', '!k.child && k.pgrp == old(k).pgrp && k.tty_pgrp == old(k).tty_pgrp && k.self_pid == old(k).self_pid && k.cloexec =~= Set::<int>::empty() && length == cl.commands@.len() && length > 0 && __HI == length - 1 && pipes@.len() <= __I && (!errored_pipes ==> pipes@.len() == __I) '
              '&& k.next_id == base_id + pipes@.len() && k.forks == old(k).forks '
              '&& layout(k.fds, pipes@, 0, mk_wiring(base_id, pipes@.len() as int, 0), None, None)'),
         ], ensures=[('C08.inv.pipeline.all_pipes_or_error', 'errored_pipes || pipes@.len() + 1 == length')]),
@@ -592,7 +592,7 @@ run_pipeline = Fn(C, 'run_pipeline', ret='r',
              '&& layout(f_err, pipes@, 0, w0, None, None)'),
         ]),
         'hdr:for i in 0..length': Loop(invariant=[
-            ('C08.inv.pipeline.stage_layout',
+            ('C02+C08.inv.pipeline.stage_layout',
              '!k.child && k.cloexec =~= Set::<int>::empty() && length == cl.commands@.len() && pipes@.len() + 1 == length && __HI == length && length < 0x7fff_fff0 '
              '&& (forall|q: int| 0 <= q < cl.commands@.len() ==> (#[trigger] cl.commands@[q]).tokens@.len() > 0) '
              '&& options.capture_output == capture && (capture && !spec_single_builtin(*cl) ==> fds_capture_stdout.is_some() && fds_capture_stderr.is_some()) '
